@@ -142,6 +142,7 @@ type RunLine struct {
 	Tape         []uint32          `json:"tape,omitempty"`
 	Log          []string          `json:"eventlog,omitempty"`
 	Sample       []string          `json:"sample,omitempty"`
+	Race         bool              `json:"race,omitempty"`
 }
 
 type workerResult struct {
@@ -156,10 +157,19 @@ type workerResult struct {
 var jobFileSeq int
 var jobFileMu sync.Mutex
 
+// raceBins: worker binaries built with -race. They get a race-detector log
+// path, and their exit status is ignored when every job reported (the testing
+// package fails a test binary in which the detector reported anything).
+var raceBins = map[string]bool{}
+
+// raceProps: properties whose check includes a batch of runs under the race detector.
+var raceProps = map[string]bool{"C17": true}
+
 // runWorker executes jobs in one fresh worker process.
 func runWorker(bin, prop string, jobs []Job, procs int, sample int, timeout time.Duration) workerResult {
 	jobFileMu.Lock()
 	jobFileSeq++
+	mySeq := jobFileSeq
 	jf := filepath.Join(verifDir, "build", fmt.Sprintf("jobs.%d.%d.jsonl", os.Getpid(), jobFileSeq))
 	jobFileMu.Unlock()
 	var buf bytes.Buffer
@@ -171,6 +181,17 @@ func runWorker(bin, prop string, jobs []Job, procs int, sample int, timeout time
 	defer os.Remove(jf)
 	cmd := exec.Command(bin, "-test.run", "^TestWorker$", "-test.timeout", "0")
 	cmd.Env = append(os.Environ(), "DST_PROP="+prop, "DST_JOBS="+jf, "DST_PROCS="+strconv.Itoa(procs), "DST_SAMPLE="+strconv.Itoa(sample), "GOTRACEBACK=all", "GOGC=off", "DST_KNOWN="+filepath.Join(verifDir, "known_findings.json"))
+	if raceBins[bin] {
+		rl := filepath.Join(verifDir, "build", fmt.Sprintf("racelog.%d.%d", os.Getpid(), mySeq))
+		cmd.Env = append(cmd.Env, "GORACE=log_path="+rl+" halt_on_error=0", "DST_RACELOG="+rl)
+		defer func() {
+			if fs, _ := filepath.Glob(rl + ".*"); len(fs) > 0 {
+				for _, f := range fs {
+					os.Remove(f)
+				}
+			}
+		}()
+	}
 	var stdout, stderr bytes.Buffer
 	cmd.Stdout = &stdout
 	cmd.Stderr = &stderr
@@ -228,6 +249,9 @@ func runWorker(bin, prop string, jobs []Job, procs int, sample int, timeout time
 		more := runWorker(bin, prop, rest, procs, sample, timeout)
 		more.lines = append(res.lines, more.lines...)
 		return more
+	}
+	if err != nil && raceBins[bin] && len(res.lines) == len(jobs) {
+		err = nil
 	}
 	if err != nil || len(res.lines) < len(jobs) {
 		res.died = true
@@ -308,6 +332,7 @@ type Replay struct {
 	Log       []string          `json:"event_log"`
 	RepoTree  string            `json:"repo_tree"`
 	Crash     string            `json:"process_crash,omitempty"`
+	Race      bool              `json:"race_detector_build,omitempty"`
 }
 
 func repoTree() string {
@@ -353,6 +378,7 @@ func tierOf(prop, tier string) tierCfg {
 type crashRec struct {
 	job    Job
 	stderr string
+	bin    string
 }
 
 func classifyCrash(stderr string) (bool, string) {
@@ -429,6 +455,7 @@ func cmdRun(args []string) {
 	var lines []RunLine
 	var crashes []crashRec
 	var fatal string
+	curBin := bin
 	runJobs := func(all []Job, chunk int) {
 		var chunks [][]Job
 		for f := 0; f < len(all); f += chunk {
@@ -450,7 +477,7 @@ func cmdRun(args []string) {
 					next++
 					mu.Unlock()
 					for len(jobs) > 0 {
-						res := runWorker(bin, *prop, jobs, 1, 3, 10*time.Minute)
+						res := runWorker(curBin, *prop, jobs, 1, 3, 10*time.Minute)
 						mu.Lock()
 						lines = append(lines, res.lines...)
 						if res.fatal != "" {
@@ -476,7 +503,7 @@ func cmdRun(args []string) {
 						}
 						mu.Lock()
 						if inflight != nil {
-							crashes = append(crashes, crashRec{*inflight, res.stderr})
+							crashes = append(crashes, crashRec{*inflight, res.stderr, curBin})
 						} else if res.fatal == "" {
 							fatal = "worker died with no job in flight:\n" + res.stderr
 						}
@@ -542,10 +569,34 @@ func cmdRun(args []string) {
 		enumStats["random_multi_fault_runs"] = len(random)
 		runJobs(random, 20)
 	}
+	raceBin := ""
+	if raceProps[*prop] && fatal == "" {
+		// the same scenarios under the race detector (the schedule is still the simulator's)
+		t0 := time.Now()
+		raceBin, _ = build(*prop, true)
+		raceBins[raceBin] = true
+		defer os.Remove(raceBin)
+		buildS += time.Since(t0).Seconds()
+		n := max(64, tc.runs/4)
+		var jobs []Job
+		for r := 0; r < n; r++ {
+			jobs = append(jobs, Job{ID: 1000000 + r, Seed: seed, Run: 500000 + r})
+		}
+		enumStats["race_detector_runs"] = n
+		curBin = raceBin
+		runJobs(jobs, 4)
+		curBin = bin
+	}
 	if fatal != "" {
 		die2("harness failure: %s", fatal)
 	}
 	sort.Slice(lines, func(i, j int) bool { return lines[i].Job < lines[j].Job })
+	binOf := func(race bool) string {
+		if race {
+			return raceBin
+		}
+		return bin
+	}
 
 	findings := loadFindings()
 	tree := repoTree()
@@ -557,7 +608,7 @@ func cmdRun(args []string) {
 	// process crashes: re-run alone to confirm
 	for _, c := range crashes {
 		j := c.job
-		res := runWorker(bin, *prop, []Job{j}, 1, 0, 5*time.Minute)
+		res := runWorker(c.bin, *prop, []Job{j}, 1, 0, 5*time.Minute)
 		if !res.died {
 			die2("harness failure: worker died on run %d but the run completes when executed alone (nondeterministic crash)\n%s", j.Run, c.stderr)
 		}
@@ -571,7 +622,7 @@ func cmdRun(args []string) {
 			knownSeen[f.What]++
 			continue
 		}
-		rp := Replay{Property: *prop, Class: "process-crash", Detail: what, Seed: seed, Run: j.Run, RepoTree: tree, Crash: res.stderr}
+		rp := Replay{Property: *prop, Class: "process-crash", Detail: what, Seed: seed, Run: j.Run, RepoTree: tree, Crash: res.stderr, Race: raceBins[c.bin]}
 		path := filepath.Join(verifDir, "replays", fmt.Sprintf("%s-%d-%d.json", *prop, seed, j.Run))
 		b, _ := json.MarshalIndent(rp, "", " ")
 		os.MkdirAll(filepath.Dir(path), 0o755)
@@ -616,7 +667,7 @@ func cmdRun(args []string) {
 			continue
 		}
 		// confirm: same seed/run in a fresh process must reproduce class, step and log hash
-		conf := runWorker(bin, *prop, []Job{{ID: 0, Seed: seed, Run: l.Run, Full: true, Pos: l.Pos, Kind: l.Kind, Ref: l.Interactions != "" && l.Kind == ""}}, 1, 0, 5*time.Minute)
+		conf := runWorker(binOf(l.Race), *prop, []Job{{ID: 0, Seed: seed, Run: l.Run, Full: true, Pos: l.Pos, Kind: l.Kind, Ref: l.Interactions != "" && l.Kind == ""}}, 1, 0, 5*time.Minute)
 		if conf.died || len(conf.lines) != 1 {
 			die2("harness failure: replay of run %d died\n%s", l.Run, conf.stderr)
 		}
@@ -628,12 +679,12 @@ func cmdRun(args []string) {
 		best := c
 		bestTape := c.Tape
 		if remaining := tc.minimise; remaining > 0 && minimised < 6 {
-			bestTape, best = minimise(bin, *prop, seed, l.Run, c, remaining)
+			bestTape, best = minimise(binOf(l.Race), *prop, seed, l.Run, c, remaining)
 			best.Pos, best.Kind = l.Pos, l.Kind
 			minimised++
 		}
 		rp := Replay{Property: l.Prop, Class: best.Class, Step: best.VStep, Detail: best.Violation, Seed: seed, Run: l.Run, FaultPos: l.Pos, FaultKind: l.Kind,
-			Tape: bestTape, OrigLen: len(c.Tape), LogHash: best.LogHash, Cfg: best.Cfg, Sig: best.Sig, Log: best.Log, RepoTree: tree}
+			Tape: bestTape, OrigLen: len(c.Tape), LogHash: best.LogHash, Cfg: best.Cfg, Sig: best.Sig, Log: best.Log, RepoTree: tree, Race: l.Race}
 		path := filepath.Join(verifDir, "replays", fmt.Sprintf("%s-%d-%d.json", *prop, seed, l.Run))
 		if l.Kind != "" {
 			path = filepath.Join(verifDir, "replays", fmt.Sprintf("%s-%d-%d-%s@%d.json", *prop, seed, l.Run, l.Kind, l.Pos))
@@ -710,7 +761,7 @@ func minimise(bin, prop string, seed uint64, run int, orig RunLine, budget time.
 		}
 		wg.Wait()
 		for i, l := range results {
-			if l != nil && l.Class == orig.Class && l.Prop == orig.Prop {
+			if l != nil && l.Class == orig.Class && l.Prop == orig.Prop && (orig.Class != "data-race" || sigKey(l.Sig) == sigKey(orig.Sig)) {
 				return i, *l
 			}
 		}
@@ -905,7 +956,8 @@ func cmdReplay(args []string) {
 	if err := json.Unmarshal(b, &rp); err != nil {
 		die2("bad replay file: %v", err)
 	}
-	bin, _ := build("replay-"+rp.Property, false)
+	bin, _ := build("replay-"+rp.Property, rp.Race)
+	raceBins[bin] = rp.Race
 	defer os.Remove(bin)
 	job := Job{ID: 0, Seed: rp.Seed, Run: rp.Run, Tape: rp.Tape, Full: true, Pos: rp.FaultPos, Kind: rp.FaultKind}
 	if rp.Class == "process-crash" {
